@@ -66,3 +66,8 @@ claim("C16",
       "Decides (a) static lockset race freedom of every Device field over the three per-device goroutine roots (event loop and disconnect clean-up in the window between the go statements and wg.Wait; LED refresh; MIDI-input tracking): any two accesses from different roots, one of them a write, hold a common mutex on all paths (must-lockset, interprocedural, action tables resolved), and the lock order is acyclic; (b) the termination structure: helpers counted by wg.Add, each deferring wg.Done first and receiving the cancelled context, cancel() then wg.Wait() on every path from the end of the input loop to return, every blocking select/loop of the helpers observing ctx.Done(), sleeps bounded constants; (c) no cross-talk: no run-time writes to package-level variables, reference-typed Device fields created fresh per device, shared configuration never written. 'Promptly' (progress, third-party call durations) is NOT decided.",
       COMMON_NOTE + " OpenRGB client calls are assumed to return.",
       "interprocedural must-lockset analysis over go/ssa with goroutine roots and a go..Wait window; dominance-based termination-structure rules; who-may-write (with a positive/negative lockset control)")
+
+claim("C15",
+      "Decides the structure from which 'in order, exactly once' follows given FIFO channels: a whole-program channel-flow analysis identifies each hop of the MIDI path and shows exactly one receiving function per hop, started once; every relay forwards a value iff one was actually received (ok checked on closable channels) and exactly once; the fan-out touches its output map only under its mutex, delivers each element to every output within one critical section, closes and removes an output in one critical section, releases the lock on every realisable path; channels are closed only after their senders are done (Manager.Run passes wg.Wait over all device goroutines). Known finding: the fan-out sends while holding the mutex that DespawnOutput needs, so removal of a device that stopped reading can block forever. Schedules, fairness, the ALSA driver and draining at shutdown are NOT decided.",
+      COMMON_NOTE + " Go channels are FIFO and deliver each value once.",
+      "whole-program channel-flow unification (Steensgaard) + path-effect enumeration of relay loops + must-lockset analysis of the fan-out (with a positive/negative control)")
